@@ -13,7 +13,7 @@ class Contract(object):
     def __init__(self, qual, params=None, returns=None, requires=(), ensures=None, modifies=(),
                  raises=None, let=None, inline=(), loops=None, pure_keys=None, trusted=False,
                  props=(), note='', module=None, exc_ensures=None, fresh_result=False,
-                 noexc=True, events=None, local_modes=None, var_types=None, casts=(), no_return=False, chunks=1, ghost=None, yield_spec=None, cfile=None, split_returns=False, witness=(), index_ghosts=None, ghost_args=None):
+                 noexc=True, events=None, local_modes=None, var_types=None, casts=(), no_return=False, chunks=1, ghost=None, yield_spec=None, cfile=None, split_returns=False, witness=(), index_ghosts=None, ghost_args=None, assume_ensures=None):
         self.qual = qual
         self.params = dict(params or {})
         self.returns = returns
@@ -40,6 +40,7 @@ class Contract(object):
         self.yield_spec = yield_spec
         self.cfile = cfile
         self.split_returns = split_returns   # postconditions are proved at every return statement separately
+        self.assume_ensures = dict(assume_ensures or {})   # postconditions assumed at call sites but NOT proved against the body (listed as assumptions)
         self.ghost_args = dict(ghost_args or {})   # callee qual -> list of {callee ghost: expression} instantiations
         self.index_ghosts = index_ghosts   # ghost ints used as list indices (witness positions of sort / map facts)
         self.witness = list(witness)   # hints for the vacuity guard only: a region of the input space to look for a model in
